@@ -19,7 +19,7 @@ import argparse, collections, fcntl, importlib, json, os, random, re, shutil, su
 
 VERIF = os.path.dirname(os.path.dirname(os.path.abspath(__file__)))
 LEAN_DIR = os.path.join(VERIF, 'lean', 'TD')
-REPO = '/repo'
+REPO = os.environ.get('TDVERIF_REPO', '/repo')   # override only for mutation experiments on a scratch copy
 GUARD = 'PAULROSS_TOTALDEPTH_VERIF'
 ALLOWED_AXIOMS = {'propext', 'Classical.choice', 'Quot.sound'}
 FORBIDDEN = re.compile(r'\bsorry\b|\badmit\b|^\s*axiom\s|native_decide|bv_decide|implemented_by|\bunsafe\s|maxHeartbeats\s+0\b', re.M)
@@ -238,11 +238,13 @@ def check_proofs(ctx, extra_modules=()):
 # ------------------------------------------------------------------ decision
 
 def load_known(prop):
-    path = os.path.join(VERIF, 'known_findings.json')
-    if not os.path.exists(path):
-        return {}
-    data = json.load(open(path))
-    return {e['id']: e for e in data.get('findings', []) if e.get('property') == prop and e.get('status') == 'open'}
+    import glob
+    out = {}
+    for path in [os.path.join(VERIF, 'known_findings.json')] + sorted(glob.glob(os.path.join(VERIF, 'known_findings.d', '*.json'))):
+        if os.path.exists(path):
+            data = json.load(open(path))
+            out.update({e['id']: e for e in data.get('findings', []) if e.get('property') == prop and e.get('status') == 'open'})
+    return out
 
 
 def write_replay(ctx, kind, payload):
